@@ -26,6 +26,8 @@ struct H20 {
     counter: AtomicU64,
     seed: u64,
     use_frames: Mutex<Vec<(usize, u64, String, bool)>>, // node, conn, text, quoted
+    /// node index + 1 whose USE acknowledgements are delayed beyond the client's connection timeout (0: none)
+    slow_node: AtomicU64,
 }
 
 impl H20 {
@@ -52,6 +54,13 @@ impl Handler for H20 {
         };
         let quoted = text.contains('"');
         self.use_frames.lock().unwrap().push((rq.node.idx, rq.conn.id, text, quoted));
+        if self.slow_node.load(Ordering::SeqCst) == rq.node.idx as u64 + 1 {
+            tokio::spawn(async move {
+                tokio::time::sleep(Duration::from_millis(SLOW_USE_MS)).await;
+                rq.ack_keyspace(&keyspace);
+            });
+            return;
+        }
         let r = self.roll();
         if r < self.error_pm.load(Ordering::SeqCst) {
             rq.error(ErrorBody::simple(errcode::INVALID, "scripted USE failure"));
@@ -67,8 +76,15 @@ impl Handler for H20 {
     }
 }
 
+/// the client's connection timeout (which also bounds a USE round trip) and how late a slow node acknowledges
+const CONNECT_TIMEOUT_MS: u64 = 1200;
+const SLOW_USE_MS: u64 = 3000;
+
 #[derive(Clone, Debug, PartialEq, Eq)]
 enum Step {
+    /// one node acknowledges USE only after the client's timeout, the other at once: the call may fail, but if it
+    /// returns Ok every later request must still run on a connection in that keyspace
+    UseSlow(&'static str, usize),
     Use(&'static str, bool),
     Kill(usize),
     Restart(usize),
@@ -93,7 +109,7 @@ struct HistOut {
 }
 
 async fn run_hist(h: &Hist) -> HistOut {
-    let handler = Arc::new(H20 { delay_pm: h.delay_pm, error_pm: AtomicU64::new(0), counter: AtomicU64::new(0), seed: h.seed, use_frames: Mutex::new(vec![]) });
+    let handler = Arc::new(H20 { delay_pm: h.delay_pm, error_pm: AtomicU64::new(0), counter: AtomicU64::new(0), seed: h.seed, use_frames: Mutex::new(vec![]), slow_node: AtomicU64::new(0) });
     let sharded = NodeSpec { dc: Some("dc1".into()), rack: Some("r1".into()), tokens: vec![-500], sharding: Some(ShardSpec { nr_shards: 3, msb_ignore: 12, shard_aware_port: true }), features: Features::default() };
     let mut ks = vec![];
     // "Ks3" and "ks3", "ks2" and "KS2" are different keyspaces: a name used case-sensitively must not be folded,
@@ -114,7 +130,7 @@ async fn run_hist(h: &Hist) -> HistOut {
         call(&log, build_op, "use_keyspace", "ks2");
     }
     let session = match connect(&cluster, |b| {
-        let b = b.pool_size(PoolSize::PerShard(NonZeroUsize::new(per_shard).unwrap()));
+        let b = b.pool_size(PoolSize::PerShard(NonZeroUsize::new(per_shard).unwrap())).connection_timeout(Duration::from_millis(CONNECT_TIMEOUT_MS));
         if builder_ks { b.use_keyspace("ks2", false) } else { b }
     })
     .await
@@ -146,8 +162,11 @@ async fn run_hist(h: &Hist) -> HistOut {
     let mut added = false;
     for st in &h.steps {
         match st {
-            Step::Use(name, _) | Step::UseFailing(name) => {
+            Step::Use(name, _) | Step::UseFailing(name) | Step::UseSlow(name, _) => {
                 let cs = if let Step::Use(_, cs) = st { *cs } else { false };
+                if let Step::UseSlow(_, n) = st {
+                    handler.slow_node.store(*n as u64 + 1, Ordering::SeqCst);
+                }
                 if matches!(st, Step::UseFailing(_)) {
                     handler.error_pm.store(400, Ordering::SeqCst);
                 }
@@ -159,6 +178,7 @@ async fn run_hist(h: &Hist) -> HistOut {
                 ret(&log, op, ok, format!("{r:?}"));
                 out.use_results.push((op, name.to_string(), ok));
                 handler.error_pm.store(0, Ordering::SeqCst);
+                handler.slow_node.store(0, Ordering::SeqCst);
             }
             Step::Kill(n) => {
                 let how = if *n % 2 == 0 { CloseHow::Rst } else { CloseHow::Fin };
@@ -308,6 +328,7 @@ fn gen_hist(rng: &mut Rng, seed: u64) -> Hist {
             7 => Step::Restart(rng.below(2) as usize),
             8 => Step::AddNode,
             9 => Step::UseFailing(names[rng.below(3) as usize]),
+            10 if rng.chance(1, 3) => Step::UseSlow(names[rng.below(3) as usize], rng.below(2) as usize),
             _ => Step::Pause(5 + rng.below(60)),
         });
         // a failed use_keyspace is often retried with the very same name
@@ -331,7 +352,7 @@ fn name_is_valid(n: &str) -> bool {
 }
 
 async fn validation(o: &mut Outcome, ctx: &Ctx) {
-    let handler = Arc::new(H20 { delay_pm: 0, error_pm: AtomicU64::new(0), counter: AtomicU64::new(0), seed: 0, use_frames: Mutex::new(vec![]) });
+    let handler = Arc::new(H20 { delay_pm: 0, error_pm: AtomicU64::new(0), counter: AtomicU64::new(0), seed: 0, use_frames: Mutex::new(vec![]), slow_node: AtomicU64::new(0) });
     let cluster = MockCluster::start(single_node_spec(), handler.clone()).await;
     cluster.allow_any_keyspace();
     let session = match connect(&cluster, |b| b).await {
@@ -422,6 +443,10 @@ pub fn run(ctx: &Ctx) -> Outcome {
                     Step::Use(leak(it.next().unwrap_or("ks")), it.next() == Some("true"))
                 }
                 "UseFailing" => Step::UseFailing(leak(inner)),
+                "UseSlow" => {
+                    let mut it = inner.split(", ");
+                    Step::UseSlow(leak(it.next().unwrap_or("ks")), it.next().and_then(|x| x.parse().ok()).unwrap_or(0))
+                }
                 "Kill" => Step::Kill(inner.parse().unwrap_or(0)),
                 "Restart" => Step::Restart(inner.parse().unwrap_or(0)),
                 "AddNode" => Step::AddNode,
@@ -469,7 +494,7 @@ pub fn run(ctx: &Ctx) -> Outcome {
         }
     }
     rt.block_on(validation(&mut out, ctx));
-    for c in ["keyspace-given-to-session-builder", "step:Use", "step:Kill", "step:Restart", "step:AddNode", "step:UseFailing", "requests-on-connections-opened-after-use", "use:failed-on-some-connection", "name:valid", "name:invalid", "validation-part"] {
+    for c in ["keyspace-given-to-session-builder", "step:Use", "step:Kill", "step:Restart", "step:AddNode", "step:UseFailing", "step:UseSlow", "requests-on-connections-opened-after-use", "use:failed-on-some-connection", "name:valid", "name:invalid", "validation-part"] {
         out.require_class(c);
     }
     out
